@@ -73,3 +73,40 @@ class Net:
         return self.f.hess(self._z(z, eq)) * self._s(eq)
 
     # derivatives with respect to the equation parameters (for C06's non-vacuity only)
+
+
+class SNet:
+    """separable analytic field wrapped in the real SPINN (no transforms)"""
+
+    def __init__(self, field, eq_type):
+        self.f = field
+        self.eq_type = eq_type
+        self.D = field.D
+        self.n_out = field.m
+        self.reads = ()
+
+    def spinn(self):
+        return fields.make_spinn(self.f.spinn_module(), self.eq_type, self.f.D, self.f.r, self.f.m)
+
+    def twin_pinn(self):
+        """pointwise PINN evaluating the same function from the same leaves"""
+        return fields.make_pinn(self.f.point_module(), self.eq_type, self.f.m)
+
+    def nn_params(self):
+        import equinox as eqx
+
+        return eqx.partition(self.f.spinn_module(), eqx.is_inexact_array)[0]
+
+    def twin_params(self):
+        import equinox as eqx
+
+        return eqx.partition(self.f.point_module(), eqx.is_inexact_array)[0]
+
+    def val(self, z, eq=None):
+        return self.f.val(z)
+
+    def grad(self, z, eq=None):
+        return self.f.grad(z)
+
+    def hess(self, z, eq=None):
+        return self.f.hess(z)
